@@ -27,7 +27,7 @@ def c07(tier):
     ck.add_tlc(g)
     behaviours = sorted(g.lines, key=lambda b: b["run"])
     cfg = write_cfg(['Mode = "sizes"', "MaxSid = 2001", "MaxWrites = 0", "NRuns = 0", "NSteps = 0"],
-                    invariants=["PageBound", "NoDuplicates", "ExactWhenQuiet", "NonFinalPagesFull"])
+                    invariants=["PageBound", "Ascending", "ExactWhenQuiet", "NonFinalPagesFull"])   # strictly ascending implies duplicate free
     z = tlc("Pager", "sizes.cfg", files={"sizes.cfg": cfg})
     ck.add_tlc(z)
     sizes = z.lines
